@@ -71,6 +71,20 @@ def c05_points(case):
     kind = _C05_KIND.get(case['func'], 'any')
     maxnz = 2 if case['cls'] == 'HessianDifferenceFunctions' else (max(d, 1) if case['cls'] == 'DifferenceFunctions' else 1)
     bad = _c05_judge(calls, x, kind, np.max(h), maxnz)
+    if not bad and case['cls'] != 'DifferenceFunctions' and d >= 1:
+        # re-entrant use: while the outer pass is suspended inside f, a nested pass of the same dimension runs
+        outer = []
+        state = dict(n=0)
+        x2 = x[::-1] * 0.5 + 0.1; h2 = h[::-1] * 3.0
+
+        def f_outer(z):
+            outer.append(z)
+            if len(outer) in (1, 4) and state['n'] < 2:
+                state['n'] += 1
+                getattr(cls, case['func'])(f, f(x2), x2, h2)
+            return f(z)
+        getattr(cls, case['func'])(f_outer, fx, x, h)
+        bad = [('re-entrant use: outer pass',) + tuple(b) for b in _c05_judge(outer, x, kind, np.max(h), maxnz)]
     return dict(reproduced=bool(bad), kind=kind, calls=len(calls), problems=bad[:5])
 
 
